@@ -481,3 +481,28 @@ mut('c17-parallel-map-peek', 'C17', 'R17.7', ('utils/iter.py', "    loop = async
 mut('c13-force-request-not-materialised', 'C13', 'R13.8', ('chain.py', "        if not (type(tasks) is str or isinstance(tasks, Task)):\n            # every chain gets the same tasks, also when they are given as a one-shot iterable\n            tasks = list(tasks)\n", ""))
 ben('ben-c13-force-request-tuple', ['C13', 'C07'], ('chain.py', "            tasks = list(tasks)\n        for chain in self.chains.values():", "            tasks = tuple(tasks)\n        for chain in self.chains.values():"))
 mut('c08-candidates-generator-hoisted', 'C08', 'R08.8', ('chain.py', "        current_task_namespace = current_task_name.split('::')[:-1]\n        for input_task in input_tasks:", "        current_task_namespace = current_task_name.split('::')[:-1]\n        tasks = (t for t in tasks)\n        for input_task in input_tasks:"))
+
+
+# ---------------------------------------------------------------------------------------------- round 7 (disguised faults)
+mut('c16-kind-filter-defaults', 'C16', 'R16.9', ('cache.py', "                    if parameter.default != Parameter.empty and arg not in kwargs:",
+                                                 "                    if parameter.kind == Parameter.POSITIONAL_OR_KEYWORD and parameter.default != Parameter.empty and arg not in kwargs:"))
+mut('c16-kind-skip-keyword-only', 'C16', 'R16.9', ('cache.py', "                    if i - 1 < len(args):\n                        kwargs[arg] = args[i - 1]",
+                                                   "                    if parameter.kind != Parameter.POSITIONAL_OR_KEYWORD:\n                        continue\n                    if i - 1 < len(args):\n                        kwargs[arg] = args[i - 1]"))
+ben('ben-c16-skip-var-kinds', ['C16'], ('cache.py', "                    if i - 1 < len(args):\n                        kwargs[arg] = args[i - 1]",
+                                        "                    if parameter.kind in (Parameter.VAR_POSITIONAL, Parameter.VAR_KEYWORD):\n                        continue\n                    if i - 1 < len(args):\n                        kwargs[arg] = args[i - 1]"))
+mut('c17-total-cuts-result', 'C17', 'R17.8', ('utils/iter.py', "    return [res for _, res in sorted(result, key=lambda ires: ires[0])]",
+                                              "    ordered = sorted(result, key=lambda ires: ires[0])\n    return [res for _, res in ordered][:total]"))
+mut('c17-total-cuts-threading', 'C17', 'R17.8', ('utils/threading.py', "            result.append(res)\n    return result", "            result.append(res)\n    return result if total is None else result[:total]"))
+ben('ben-c17-bar-options', ['C17'], ('utils/iter.py', "                for output_value in progress_bar(\n                    asyncio.as_completed(futures), desc=desc, total=total, smoothing=smoothing\n                )",
+                                     "                for output_value in progress_bar(\n                    asyncio.as_completed(futures), smoothing=smoothing, total=total, desc=desc\n                )"))
+mut('c17-chunk-enumerate-tail', 'C17', 'R17.3', ('utils/iter.py', "    result = []\n    result_size = 0\n    for val in iterable:\n        result.append(val)\n        result_size += 1\n        if result_size == chunksize:\n            yield result\n            result = []\n            result_size = 0\n    if result_size > 0:\n        yield result",
+                                                 "    result = []\n    seen = 0\n    for seen, val in enumerate(iterable, 1):\n        result.append(val)\n        if len(result) == chunksize:\n            yield result\n            result = []\n    if seen:\n        yield result"))
+ben('ben-c17-chunk-enumerate-len', ['C17'], ('utils/iter.py', "    result = []\n    result_size = 0\n    for val in iterable:\n        result.append(val)\n        result_size += 1\n        if result_size == chunksize:\n            yield result\n            result = []\n            result_size = 0\n    if result_size > 0:\n        yield result",
+                                             "    result = []\n    for _position, val in enumerate(iterable):\n        result.append(val)\n        if len(result) == chunksize:\n            yield result\n            result = []\n    if len(result) > 0:\n        yield result"))
+ben('ben-c06-named-sort-key', ['C06', 'C01'], ('data.py', "        self._value = []\n        for file in sorted(self.path.glob('*.npy'), key=lambda f: int(f.name.split('.')[0])):\n            self._value.append(np.load(str(file)))",
+                                               "        def position_of(array_file):\n            return int(array_file.name.split('.')[0])\n\n        arrays = self._value = []\n        for file in sorted(self.path.glob('*.npy'), key=position_of):\n            arrays.append(np.load(str(file)))"))
+mut('c06-named-sort-key-lexical', 'C06', 'R06.4', ('data.py', "        self._value = []\n        for file in sorted(self.path.glob('*.npy'), key=lambda f: int(f.name.split('.')[0])):\n            self._value.append(np.load(str(file)))",
+                                                   "        def position_of(array_file):\n            return array_file.name.split('.')[0]\n\n        arrays = self._value = []\n        for file in sorted(self.path.glob('*.npy'), key=position_of):\n            arrays.append(np.load(str(file)))"))
+ben('ben-c19-get-by-name', ['C19'], ('utils/testing.py', "    return test_chain[task.fullname(test_chain.config)]", "    return test_chain.get(task.fullname(test_chain.config))"))
+ben('ben-c08-edges-from-per-task', ['C08', 'C07'], ('chain.py', "            for input_task in task.input_tasks.values():\n                if not isinstance(input_task, Task):\n                    continue\n                G.add_edge(input_task, task)",
+                                                    "            G.add_edges_from((input_task, task) for input_task in task.input_tasks.values() if isinstance(input_task, Task))"))
